@@ -48,15 +48,37 @@ ARGS = ("var", "len", "nug", "opt")
 
 PRE = dict(var=72, len=32, nug=8, opt=80)
 FIXV = dict(var=88, len=256, nug=24, opt=112)
-PRE_ANIS = {1: [], 2: [40], 3: [40, 24]}
-FIX_ANIS = {1: [], 2: [56], 3: [56, 88]}
+PRE_ANIS = {1: [], 2: [40], 3: [40, 24], 4: [40, 24, 48]}
+FIX_ANIS = {1: [], 2: [56], 3: [56, 88], 4: [56, 88, 72]}
 CAND = dict(var=[48, 80, 120], len=[64, 128], nug=[0, 16, 48], opt=[64, 96], anis=[32, 80])
 CANDEV = dict(var=[48, 120], len=[128], nug=[16], opt=[96], anis=[80])
 CANDEV2 = dict(var=[48, 80, 120], len=[64, 128], nug=[16, 48], opt=[64, 96], anis=[32, 80])
 
-REAL = {"Plain": ("Exponential", "Gaussian"), "Opt": ("Stable",), "TPL": ("TPLGaussian",)}
-OPTNAME = {"Opt": "alpha", "TPL": "len_low"}
-OPT_DEFAULT_B = {"Plain": (0, 128, False, True), "Opt": (0, 128, False, True), "TPL": (0, INF, True, True)}
+REAL = {"Plain": ("Exponential", "Gaussian"), "Opt": ("Stable",), "TPL": ("TPLGaussian",), "TPLH": ("TPLGaussian",)}
+OPTNAME = {"Opt": "alpha", "TPL": "len_low", "TPLH": "hurst"}
+# the optional argument of the TPL classes that is NOT the spec's `opt`: always deselected, must stay untouched
+TPL_OTHER = {"TPL": ("hurst", 0.5), "TPLH": ("len_low", 0.0)}
+OPT_DEFAULT_B = {"Plain": (0, 128, False, True), "Opt": (0, 128, False, True), "TPL": (0, INF, True, True),
+                 "TPLH": (0, 64, False, False)}
+# class TPLH (opt = hurst in {1/4, 1/2}, len_low = 0, rescale = 1): var_factor = len^(2h)/(2h) is exact for
+# len in {1/4, 1, 4}; variances / nuggets are multiples of 1/4 so that every dragged variance stays on the lattice
+LATTICE_TPLH = dict(
+    pre=dict(var=80, len=16, nug=16, opt=32), fix=dict(var=96, len=256, nug=32, opt=16),
+    cand=dict(var=[48, 64, 112], len=[64, 256], nug=[0, 16, 48], opt=[16, 32], anis=[32, 80]),
+    candev=dict(var=[48, 112], len=[256], nug=[16], opt=[16], anis=[80]),
+    candev2=dict(var=[48, 64, 112], len=[64, 256], nug=[16, 48], opt=[16, 32], anis=[32, 80]),
+    sills=[("none", 0), ("false", 0), ("val", 128), ("val", 96), ("val", 64)])
+
+
+def is_tpl(c):
+    return c["cls"].startswith("TPL")
+
+
+def tpl_factor(cls, l, o):
+    """var_factor in units of 1/64 (mirror of IntFactor in the MC modules; drift level only)"""
+    if cls == "TPL" or o == 32:
+        return l
+    return {16: 64, 64: 128, 256: 256}[l]
 
 BVAR = ("var", (32, 112, True, True))
 BNUG = ("nug", (4, 48, True, True))
@@ -93,7 +115,17 @@ def jobs_for(tier):
                             latlon=False, sills=ALL_SILL if thorough else some,
                             anis=["fit", "off"],
                             bnds=[BTPL, BTPL + (BNUG,), BTPL + (BVAR,)])))
+    js.append(("TPLH2", dict(cls="TPLH", real="TPLGaussian", dim=2, dirs=[False, True] if thorough else [False],
+                             latlon=False, sills=LATTICE_TPLH["sills"], anis=["fit", "off"],
+                             bnds=[(("len", (16, 512, True, True)),)], lattice=LATTICE_TPLH)))
+    # metric spatio-temporal models: dim = spatial_dim + 1, all dim - 1 ratios are fitted / fixed / kept
+    js.append(("PlainT3", dict(cls="Plain", real="Exponential", dim=3, dirs=[True, False] if thorough else [True],
+                               latlon=False, temporal=True,
+                               sills=ALL_SILL if thorough else [("none", 0), ("false", 0), ("val", 128)],
+                               anis=["fit", "off", "fix"], bnds=[()])))
     if thorough:
+        js.append(("PlainT4", dict(cls="Plain", real="Gaussian", dim=4, dirs=[True], latlon=False, temporal=True,
+                                   sills=[("none", 0), ("val", 128)], anis=["fit", "off", "fix"], bnds=[()])))
         js.append(("Opt3", dict(cls="Opt", real="Stable", dim=3, dirs=[True], latlon=False,
                                 sills=[("none", 0), ("false", 0), ("val", 128)], anis=["fit", "off", "fix"],
                                 bnds=[()])))
@@ -122,8 +154,14 @@ IntPlus(a, b) == a + b
 IntMinus(a, b) == a - b
 IntLe(a, b) == a <= b
 IntSame(a, b) == a = b
-IntVarOfRaw(r, l) == IF (r * l) % U = 0 THEN (r * l) \div U ELSE Assert(FALSE, <<"inexact product", r, l>>)
-IntRawOfVar(v, l) == IF (v * U) % l = 0 THEN (v * U) \div l ELSE Assert(FALSE, <<"inexact quotient", v, l>>)
+IntFactor(k, l, o) ==   \* var_factor of the TPL classes in units of 1/64
+  IF k = "TPL" \/ o = 32 THEN l
+  ELSE IF o = 16 /\ l \in {16, 64, 256} THEN (CASE l = 16 -> 64 [] l = 64 -> 128 [] l = 256 -> 256)
+  ELSE Assert(FALSE, <<"var_factor not on the lattice", k, l, o>>)
+IntVarOfRaw(k, r, l, o) == LET f == IntFactor(k, l, o) IN
+  IF (r * f) % U = 0 THEN (r * f) \div U ELSE Assert(FALSE, <<"inexact product", r, f>>)
+IntRawOfVar(k, v, l, o) == LET f == IntFactor(k, l, o) IN
+  IF (v * U) % f = 0 THEN (v * U) \div f ELSE Assert(FALSE, <<"inexact quotient", v, f>>)
 B(lo, hi, lc, hc) == [lo |-> lo, hi |-> hi, lc |-> lc, hc |-> hc]
 S(k, v) == [k |-> k, v |-> v]
 '''
@@ -134,6 +172,8 @@ INT_CFG = ("CONSTANTS\n Plus <- IntPlus\n Minus <- IntMinus\n Le <- IntLe\n Same
 
 def mc_module(name, job, maxev=1, candev=None):
     cls, dim = job["cls"], job["dim"]
+    lat = job.get("lattice", {})
+    PRE_, FIX_ = lat.get("pre", PRE), lat.get("fix", FIXV)
     defb = dict(var=(0, INF, False, False), len=(0, INF, False, False), nug=(0, INF, True, False),
                 opt=OPT_DEFAULT_B[cls], anis=(0, INF, False, False))
     bsets = []
@@ -143,19 +183,20 @@ def mc_module(name, job, maxev=1, candev=None):
             d[arg] = bb
         bsets.append(_rec({k: _b(v) for k, v in d.items()}))
     sel = {
-        "var": ['S("fit", 0)', 'S("off", 0)', 'S("fix", %d)' % FIXV["var"], 'S("fix", 0)'],
-        "len": ['S("fit", 0)', 'S("off", 0)', 'S("fix", %d)' % FIXV["len"]],
-        "nug": ['S("fit", 0)', 'S("off", 0)', 'S("fix", %d)' % FIXV["nug"]],
-        "opt": ['S("fit", 0)', 'S("off", 0)', 'S("fix", %d)' % FIXV["opt"]] if cls != "Plain" else ['S("off", 0)'],
+        "var": ['S("fit", 0)', 'S("off", 0)', 'S("fix", %d)' % FIX_["var"], 'S("fix", 0)'],
+        "len": ['S("fit", 0)', 'S("off", 0)', 'S("fix", %d)' % FIX_["len"]],
+        "nug": ['S("fit", 0)', 'S("off", 0)', 'S("fix", %d)' % FIX_["nug"]],
+        "opt": ['S("fit", 0)', 'S("off", 0)', 'S("fix", %d)' % FIX_["opt"]] if cls != "Plain" else ['S("off", 0)'],
     }
     anis = []
     for k in job["anis"]:
         anis.append(_rec({"k": '"%s"' % k, "v": _seq(FIX_ANIS[dim]) if k == "fix" else "<<>>"}))
-    pre = _rec({"var": PRE["var"], "len": PRE["len"], "nug": PRE["nug"], "opt": PRE["opt"],
+    pre = _rec({"var": PRE_["var"], "len": PRE_["len"], "nug": PRE_["nug"], "opt": PRE_["opt"],
                 "anis": _seq([U, U] if job["latlon"] else PRE_ANIS[dim])})
-    base = ('[cls |-> "%s", dim |-> %d, dir |-> d, latlon |-> %s, pre |-> %s, bnd |-> b, '
+    base = ('[cls |-> "%s", dim |-> %d, dir |-> d, latlon |-> %s, temporal |-> %s, pre |-> %s, bnd |-> b, '
             'sel |-> [var |-> sv, len |-> sl, nug |-> sn, opt |-> so], sill |-> si, anis |-> an, '
-            'unknown |-> un, methodok |-> mo]' % (cls, dim, "TRUE" if job["latlon"] else "FALSE", pre))
+            'unknown |-> un, methodok |-> mo]' % (cls, dim, "TRUE" if job["latlon"] else "FALSE",
+                                                   "TRUE" if job.get("temporal") else "FALSE", pre))
     main = ("{%s : d \\in %s, sv \\in %s, sl \\in %s, sn \\in %s, so \\in %s, si \\in %s, an \\in %s, b \\in %s, "
             "un \\in {FALSE}, mo \\in {TRUE}}" % (
                 base, _set("TRUE" if x else "FALSE" for x in job["dirs"]), _set(sel["var"]), _set(sel["len"]),
@@ -168,11 +209,11 @@ def mc_module(name, job, maxev=1, candev=None):
                     "un \\in BOOLEAN, mo \\in BOOLEAN}" % (
                         base, _set(sel["var"][:3]), _set(sel["nug"][:2]), _set(sel["opt"][:1]), _set(anis[:1]),
                         bsets[0]))
-    ce = candev or CANDEV
+    ce = candev or lat.get("candev", CANDEV)
     txt = "---- MODULE %s ----\nEXTENDS Fit\n%s" % (name, INT_OPS)
     txt += "McAll == " + " \\cup\n  ".join(sets) + "\n"
     txt += "McCfgs == {c \\in McAll : PreLegal(c)}\n"
-    txt += "McCand == " + _rec({k: _set(str(x) for x in v) for k, v in CAND.items()}) + "\n"
+    txt += "McCand == " + _rec({k: _set(str(x) for x in v) for k, v in lat.get("cand", CAND).items()}) + "\n"
     txt += "McCandEv == " + _rec({k: _set(str(x) for x in v) for k, v in ce.items()}) + "\n====\n"
     cfg = INT_CFG + " MaxEv = %d\n InfTail = TRUE\nINIT Init\nNEXT Next\n" % maxev
     cfg += "INVARIANT IdealSound\nINVARIANT IdealPreLegal\nINVARIANT LastEvalDecides\nINVARIANT ImplConforms\n"
@@ -225,22 +266,34 @@ def q2f(q):
 _TEMPLATES = {}
 
 
-def _template(real, dim, latlon):
+def _template(real, c):
+    """a real model in the pre-fit state of configuration c (default bounds); cached"""
     import gstools as gs
 
-    key = (real, dim, latlon)
+    pre = c["pre"]
+    key = (real, c["cls"], c["dim"], c["latlon"], c.get("temporal", False), tlaval.freeze(pre))
     if key not in _TEMPLATES:
-        kw = dict(var=q2f(PRE["var"]), len_scale=q2f(PRE["len"]), nugget=q2f(PRE["nug"]))
-        if latlon:
+        dim = c["dim"]
+        kw = dict(var=q2f(pre["var"]), len_scale=q2f(pre["len"]), nugget=q2f(pre["nug"]))
+        if c["latlon"]:
             kw.update(latlon=True)
         else:
-            kw.update(dim=dim)
+            if c.get("temporal"):
+                kw.update(temporal=True, spatial_dim=dim - 1)
+                sdim = dim - 1
+            else:
+                kw.update(dim=dim)
+                sdim = dim
             if dim > 1:
-                kw.update(anis=[q2f(a) for a in PRE_ANIS[dim]], angles=[0.25] + [0.0] * (dim * (dim - 1) // 2 - 1))
-        if real == "Stable":
-            kw["alpha"] = q2f(PRE["opt"])
-        if real == "TPLGaussian":
-            kw.update(hurst=0.5, len_low=q2f(PRE["opt"]), rescale=1.0)
+                kw.update(anis=[q2f(a) for a in pre["anis"]])
+            if sdim > 1:
+                kw.update(angles=[0.25] + [0.0] * (sdim * (sdim - 1) // 2 - 1))
+        if c["cls"] == "Opt":
+            kw["alpha"] = q2f(pre["opt"])
+        if c["cls"] == "TPL":
+            kw.update(hurst=0.5, len_low=q2f(pre["opt"]), rescale=1.0)
+        if c["cls"] == "TPLH":
+            kw.update(hurst=q2f(pre["opt"]), len_low=0.0, rescale=1.0)
         with warnings.catch_warnings():
             warnings.simplefilter("ignore")
             _TEMPLATES[key] = getattr(gs, real)(**kw)
@@ -259,7 +312,7 @@ def default_bounds(c):
 
 def build_model(c, real):
     """A fresh real model in the pre-fit state of configuration c."""
-    m = copy.deepcopy(_template(real, c["dim"], c["latlon"]))
+    m = copy.deepcopy(_template(real, c))
     names = {"var": "var", "len": "len_scale", "nug": "nugget", "opt": OPTNAME.get(c["cls"]), "anis": "anis"}
     custom = {}
     for a, b in c["bnd"].items():
@@ -291,8 +344,8 @@ def build_kwargs(c, alt=0):
             kw[names[a]] = False
         else:
             kw[names[a]] = _num(s["v"], alt % 2)
-    if c["cls"] == "TPL":
-        kw["hurst"] = False
+    if is_tpl(c):
+        kw[TPL_OTHER[c["cls"]][0]] = False
     k = c["sill"]["k"]
     if k == "none":
         if alt % 2:
@@ -338,8 +391,8 @@ def project(m, c):
                anis=[float(a) for a in np.atleast_1d(m.anis)][: m.dim - 1],
                angles=[float(a) for a in np.atleast_1d(m.angles)], rescale=float(m.rescale), dim=m.dim)
     out["opt"] = float(getattr(m, OPTNAME[c["cls"]])) if c["cls"] in OPTNAME else q2f(c["pre"]["opt"])
-    if c["cls"] == "TPL":
-        out["hurst"] = float(m.hurst)
+    if is_tpl(c):
+        out["tpl_other"] = float(getattr(m, TPL_OTHER[c["cls"]][0]))
     return out
 
 
@@ -348,8 +401,8 @@ def project_ret(ret, c):
     out["opt"] = float(ret[OPTNAME[c["cls"]]]) if c["cls"] in OPTNAME else q2f(c["pre"]["opt"])
     out["anis"] = [float(a) for a in np.atleast_1d(ret["anis"])] if "anis" in ret else None
     out["keys"] = sorted(ret)
-    if c["cls"] == "TPL":
-        out["hurst"] = float(ret["hurst"])
+    if is_tpl(c):
+        out["tpl_other"] = float(ret[TPL_OTHER[c["cls"]][0]])
     return out
 
 
@@ -357,7 +410,7 @@ def expected_keys(c):
     ks = ["var", "len_scale", "nugget"]
     if c["cls"] == "Opt":
         ks.append("alpha")
-    if c["cls"] == "TPL":
+    if is_tpl(c):
         ks += ["hurst", "len_low"]
     if c["dir"]:
         ks.append("anis")
@@ -376,8 +429,8 @@ def close(a, b, tol=1e-12):
 
 # synthetic data ------------------------------------------------------------
 
-TRUTHS = [dict(var=1.5, len=2.0, nug=0.5, opt=1.5, anis={1: [], 2: [0.5], 3: [0.5, 0.25]}),
-          dict(var=1.875, len=1.0, nug=0.125, opt=1.0, anis={1: [], 2: [0.75], 3: [0.75, 0.5]})]
+TRUTHS = [dict(var=1.5, len=2.0, nug=0.5, opt=1.5, hurst=0.5, anis={1: [], 2: [0.5], 3: [0.5, 0.25], 4: [0.5, 0.25, 0.75]}),
+          dict(var=1.875, len=1.0, nug=0.125, opt=1.0, hurst=0.25, anis={1: [], 2: [0.75], 3: [0.75, 0.5], 4: [0.75, 0.5, 0.25]})]
 _DATA = {}
 
 
@@ -385,15 +438,18 @@ def data_for(c, real, which=0):
     """exact variogram values of a model of the same family (x, y, truth)"""
     import gstools as gs
 
-    key = (real, c["dim"], c["latlon"], c["dir"], which)
+    key = (real, c["cls"], c["dim"], c["latlon"], c.get("temporal", False), c["dir"], which)
     if key in _DATA:
         return _DATA[key]
     t = TRUTHS[which]
     kw = dict(var=t["var"], len_scale=t["len"], nugget=t["nug"])
-    if real == "Stable":
+    if c["cls"] == "Opt":
         kw["alpha"] = t["opt"]
-    if real == "TPLGaussian":
+    if c["cls"] == "TPL":
         kw.update(hurst=0.5, len_low=t["opt"], rescale=1.0)
+    if c["cls"] == "TPLH":
+        kw.update(hurst=t["hurst"], len_low=0.0, rescale=1.0)
+    dimkw = dict(temporal=True, spatial_dim=c["dim"] - 1) if c.get("temporal") else dict(dim=c["dim"])
     with warnings.catch_warnings():
         warnings.simplefilter("ignore")
         if c["latlon"]:
@@ -403,11 +459,11 @@ def data_for(c, real, which=0):
             if c["dir"]:
                 y = np.concatenate([y, y, y])
         elif c["dir"]:
-            tm = getattr(gs, real)(dim=c["dim"], anis=t["anis"][c["dim"]], **kw)
+            tm = getattr(gs, real)(anis=t["anis"][c["dim"]], **dimkw, **kw)
             x = np.arange(1, 9) * 0.5
             y = np.concatenate([tm.vario_axis(x, axis=i) for i in range(c["dim"])])
         else:
-            tm = getattr(gs, real)(dim=c["dim"], **kw)
+            tm = getattr(gs, real)(**dimkw, **kw)
             x = np.arange(1, 13) * 0.5
             y = tm.variogram(x)
     _DATA[key] = (x, y, t)
@@ -551,7 +607,7 @@ def eff_fit(c, a):
 
 def cfg_class(c, cp=None):
     """coarse configuration class used in violation signatures"""
-    fam = "TPL" if c["cls"] == "TPL" else "std"
+    fam = "TPL" if is_tpl(c) else "std"
     sill = "nosill" if c["sill"]["k"] in ("none", "true") else "sill"
     return "%s:%s:%s" % (fam, sill, "var-fitted" if eff_fit(c, "var") else "var-not-fitted")
 
@@ -588,8 +644,8 @@ def match_ideal(c, e, call, tol=1e-12):
     for k, v in call.other_before.items():
         if call.final[k] != v:
             return (n + 2, "model:" + k)
-    if c["cls"] == "TPL" and (call.final["hurst"] != 0.5 or call.ret["hurst"] != 0.5):
-        return (n + 3, "model:hurst")
+    if is_tpl(c) and not (call.final["tpl_other"] == call.ret["tpl_other"] == TPL_OTHER[c["cls"]][1]):
+        return (n + 3, "model:" + TPL_OTHER[c["cls"]][0])
     return None
 
 
@@ -609,7 +665,7 @@ def observable_name(tag, c):
 def violation_key(obs, c, call=None):
     """signature of a violation: observable, model family, configuration class.  Exceptions are
     classified by the family and the argument the model complained about."""
-    fam = "TPL" if c["cls"] == "TPL" else "std"
+    fam = "TPL" if is_tpl(c) else "std"
     if obs.startswith("error") or obs.startswith("accepted"):
         m = re.search(r"ValueError\(['\"](\w+) needs to be", (call.exc or "") if call is not None else "")
         return "%s:%s%s" % (obs, fam, (":%s-bounds" % m.group(1)) if m and obs == "error:spurious" else "")
@@ -678,7 +734,7 @@ def impl_diff(c, cend, call):
     if call.st != "ok":
         return "status"
     m = cend["m"]
-    var = m["raw"] * m["len"] / U if c["cls"] == "TPL" else m["raw"]
+    var = m["raw"] * tpl_factor(c["cls"], m["len"], m["opt"]) / U if is_tpl(c) else m["raw"]
     exp = dict(var=var / U, len=q2f(m["len"]), nug=q2f(m["nug"]), opt=q2f(m["opt"]), anis=[q2f(a) for a in m["anis"]])
     for a in exp:
         if not close(exp[a], call.final[a]):
@@ -799,7 +855,9 @@ def _kw_str(kw):
 
 def _cfg_str(c):
     b = {a: real_bounds(v) for a, v in c["bnd"].items() if dict(v) != default_bounds(c)[a]}
-    return "%s%s%s" % ("latlon" if c["latlon"] else "dim=%d" % c["dim"], " directional" if c["dir"] else "",
+    return "%s%s%s" % ("latlon" if c["latlon"] else (
+        "temporal spatial_dim=%d" % (c["dim"] - 1) if c.get("temporal") else "dim=%d" % c["dim"]),
+        " directional" if c["dir"] else "",
                        (" bounds %s" % b) if b else "")
 
 
@@ -902,7 +960,7 @@ def _check_ready(c, a, call):
                 return (n, "bounds:" + nme)
         elif not derived:
             exact = q2f(pm[nme])
-            if not (f[nme] == exact or (c["cls"] == "TPL" and nme == "var" and close(f[nme], exact, tol))):
+            if not (f[nme] == exact or (is_tpl(c) and nme == "var" and close(f[nme], exact, tol))):
                 return (n, "model:" + nme)
         n += 1
     if a["fanis"]:
@@ -931,8 +989,8 @@ def _check_ready(c, a, call):
     for k, v in call.other_before.items():
         if f[k] != v:
             return (n + 2, "model:" + k)
-    if c["cls"] == "TPL" and (f["hurst"] != 0.5 or r["hurst"] != 0.5):
-        return (n + 3, "model:hurst")
+    if is_tpl(c) and not (f["tpl_other"] == r["tpl_other"] == TPL_OTHER[c["cls"]][1]):
+        return (n + 3, "model:" + TPL_OTHER[c["cls"]][0])
     # the recorded optimum must be what the model holds for the fitted arguments
     names = vec_names(para, a["fanis"], c["dim"])
     if len(names) == len(call.popt):
@@ -966,6 +1024,7 @@ def cfg_fx(c):
         return [_fxq(a) for a in v] if isinstance(v, list) else _fxq(v)
 
     return {"cls": c["cls"], "dim": c["dim"], "dir": c["dir"], "latlon": c["latlon"],
+            "temporal": c.get("temporal", False),
             "pre": {k: val(v) for k, v in c["pre"].items()},
             "bnd": {a: {"lo": _fxq(b["lo"]), "hi": _fxq(b["hi"]), "lc": b["lc"], "hc": b["hc"]}
                     for a, b in c["bnd"].items()},
@@ -1078,7 +1137,7 @@ def _scipy_chunk(task, progress=None):
             out["aux"].append((call.r2, fitted_all,
                                max(abs(call.final["var"] - t["var"]), abs(call.final["len"] - t["len"]),
                                    abs(call.final["nug"] - t["nug"])) if fitted_all else None))
-        if c["cls"] != "TPL":
+        if not is_tpl(c):
             tr = trace_record(c, call)
             if tr is None:
                 out["edges"]["(trace not representable in fixed point)"] = out["edges"].get(
@@ -1238,7 +1297,9 @@ def run(pid, tier, seed, replay=None):
     rng = random.Random(seed)
     rep.assumptions += [
         "abstraction: real parameters are the float images of the spec's 1/64 lattice; spec classes Plain/Opt/TPL = "
-        "Exponential|Gaussian / Stable(alpha) / TPLGaussian(len_low; hurst=0.5 deselected, rescale=1 so that var = var_raw * len_scale exactly)",
+        "Exponential|Gaussian / Stable(alpha) / TPLGaussian(opt = len_low; hurst=0.5 deselected, rescale=1: var = var_raw * len_scale) / "
+        "TPLH = TPLGaussian(opt = hurst in {1/4, 1/2}; len_low=0 deselected, rescale=1, len_scale in {1/4, 1, 4}: "
+        "var = var_raw * len_scale^(2 hurst) / (2 hurst) exactly); temporal jobs use temporal=True with dim = spatial_dim + 1",
         "adversary class: the optimiser evaluates the closure at finitely many vectors of the closed box it was handed, "
         "starts at a vector of finite cost and returns a vector of finite cost of that box; candidate values avoid open ends of bounds",
         "a call that leaves nothing to fit, an optimiser that stops on an open bound or fails to converge are outside the documented semantics (counted, never a violation)",
@@ -1273,7 +1334,7 @@ def run(pid, tier, seed, replay=None):
             j2["anis"] = job["anis"][:1]
             if thorough:
                 j2["bnds"] = job["bnds"][:3]
-            mod, cfg = mc_module("EV2_" + name, j2, maxev=2, candev=CANDEV2 if thorough else CANDEV)
+            mod, cfg = mc_module("EV2_" + name, j2, maxev=2, candev=job.get("lattice", {}).get("candev2", CANDEV2) if thorough else None)
             sc.write("EV2_%s.tla" % name, mod)
             tjobs.append((("ev2", name), sc, "EV2_" + name, cfg,
                           dict(workers=2, timeout=2400, heap="4g", extra=("-continue",))))
